@@ -365,12 +365,14 @@ def factory_part(ck, L, G, order, per_type):
     for i in range(0, len(cases), 1000):
         res += ck.impl("c02_impl.py", {"order": order, "cases": cases[i:i + 1000], "want": ["rec", "text"]}, timeout=2400)["results"]
     k = 1 + len(FACTORY_MODES)
+    refs = {}
     for i in range(0, len(cases), k):
         ref = res[i]
         cs = cases[i]
         if "obj_err" in ref or "text_err" in ref or ref.get("rec", {}).get("raised") is not None or not ref.get("lx", {}).get("valid"):
             ck.tally("factory:skipped:constructor-built-tree-not-accepted")     # (the main part reports those)
             continue
+        refs[i // k] = ref
         ck.tally("factory:" + cs["role"].split(":")[1] if cs["role"].startswith("factory:") else "factory:fixed")
         for j, m in enumerate(FACTORY_MODES):
             r = res[i + 1 + j]
@@ -402,6 +404,48 @@ def factory_part(ck, L, G, order, per_type):
                            "a conforming %s built through %s dumps like the constructor-built tree but validate says %s / the XML %s" % (
                                cs["type"], m, r.get("rec", {}).get("raised"), "is the same" if r.get("text") == ref.get("text") else "differs"),
                            input=inp)
+    children_forms_part(ck, order, base, refs)
+
+
+CHILD_FORMS = ("tuple", "generator", "iter", "map", "numpy-object-array")
+
+
+def children_forms_part(ck, order, base, refs):
+    """list-valued members handed over as a tuple / generator / iter(list) / map / numpy object array (the constructors
+    keep them as given): the conforming tree passes validate(recursive=True), is written as the XML of the list-built
+    tree, and validating first does not change what is written (one-shot iterables must not be consumed)"""
+    sel = [(b, refs[i]) for i, b in enumerate(base) if i in refs and
+           any(kv[1] and "l" in kv[1] and kv[1]["l"] for n in c03.all_nodes(b["tree"]) for kv in n["kw"])]
+    cases = []
+    for b, _ in sel:
+        for f in CHILD_FORMS:
+            cases.append(dict(b, build="children-as:" + f, want=["text"]))
+            cases.append(dict(b, build="children-as:" + f, want=["rec", "text"]))
+    res = []
+    for i in range(0, len(cases), 1500):
+        res += ck.impl("c02_impl.py", {"order": order, "cases": cases[i:i + 1500], "want": ["rec", "text"]}, timeout=2400)["results"]
+    i = 0
+    for b, ref in sel:
+        for f in CHILD_FORMS:
+            w, v = res[i], res[i + 1]
+            i += 2
+            ck.tally("children-as:" + f)
+            inp = {"tree": b["tree"], "tag": b["tag"], "doc": False, "type": b["type"], "role": b["role"], "build": "children-as:" + f}
+            if w.get("text") != ref.get("text"):
+                ck.tally("children-as:skipped:%s-not-written-like-a-list" % f)       # the form itself is not supported by the writer
+                continue
+            ck.count(1, nontrivial_key=("children-as", f, json.dumps(ref["obj"], sort_keys=True)))
+            if "obj_err" in v or v.get("rec", {}).get("raised") is not None:
+                ck.witness("C02:children-held-in-%s:validate-rejects" % f,
+                           "a conforming %s whose list-valued members are handed over as %s (written like the list-built tree without "
+                           "validate): validate(recursive=True) raises %s" % (b["type"], f, v.get("obj_err") or v["rec"].get("text", "")[:300]), input=inp)
+            elif v.get("text") != ref.get("text"):
+                ck.witness("C02:children-held-in-%s:validate-changes-what-is-written" % f,
+                           "a conforming %s whose list-valued members are handed over as %s passes validate(recursive=True), but after "
+                           "validating the writer emits other XML than without validating first (%d characters instead of %d; libxml2: %s): %s" % (
+                               b["type"], f, len(v.get("text") or ""), len(ref.get("text") or ""),
+                               (v.get("lx") or {}).get("err") or "valid", (v.get("text") or v.get("text_err") or "")[:300]),
+                           input=inp, expected=(ref.get("text") or "")[:400], observed=(v.get("text") or "")[:400])
 
 
 def tree_diff(a, b, where=""):
@@ -668,6 +712,10 @@ def run(ck):
     for i in range(0, len(cases), 800):
         res += ck.impl("c02_impl.py", {"order": order, "cases": cases[i:i + 800], "want": ["rec", "text", "xml", "file", "prefixed"]},
                        timeout=2400)["results"]
+    # the interpreter's configuration is not input (python -O, another hash seed / working directory)
+    subi = list(range(10)) + [i for i, c in enumerate(cases) if c["doc"] and i >= 10][:6]
+    c03.interpreter_configuration(ck, "C02", "c02_impl.py", order, [cases[i] for i in subi], [res[i] for i in subi], ["rec", "text", "file"],
+                                  ("rec", "text", "lx", "path_lx", "entry_mismatch", "file_valid", "file_validate", "obj_err", "text_err", "file_err"))
     xcases, ccases = [], []
     for cs, r in zip(cases, res):
         ck.tally("role:" + cs["role"].split(":")[0])
@@ -769,6 +817,14 @@ def replay(ck, data):
             x["rec"] = (x["rec"] or {}).get("raised")
         print(json.dumps({"stored": {k: data.get(k) for k in ("key", "what")}, "now": rows}, indent=1)[:6000])
         return 1 if any(x.get("err") or x["rec"] or not (x.get("lx") or {}).get("valid") for x in rows) else 0
+    if str(inp.get("build", "")).startswith("children-as:"):
+        ref, w, v = ck.impl("c02_impl.py", {"order": order, "cases": [dict(inp, build="ctor"), dict(inp, want=["text"]), dict(inp, want=["rec", "text"])],
+                                            "want": ["rec", "text"]})["results"]
+        print(json.dumps({"stored": {k: data.get(k) for k in ("key", "what")}, "children held as": inp["build"].split(":")[1],
+                          "now": {"written without validate = list-built XML": w.get("text") == ref.get("text"),
+                                  "validate(recursive=True)": v.get("rec"), "written after validate = list-built XML": v.get("text") == ref.get("text"),
+                                  "xml after validate": (v.get("text") or "")[:800]}}, indent=1)[:6000])
+        return 1 if w.get("text") == ref.get("text") and (v.get("rec", {}).get("raised") or v.get("text") != ref.get("text")) else 0
     if inp.get("build"):
         ref, r = ck.impl("c02_impl.py", {"order": order, "cases": [dict(inp, build="ctor"), inp], "want": ["rec", "text"]})["results"]
         same = "obj" in r and r["obj"] == ref.get("obj") and r.get("text") == ref.get("text") and r.get("rec", {}).get("raised") is None
